@@ -7,6 +7,8 @@ import (
 	"io"
 	"time"
 
+	"google.golang.org/grpc/codes"
+	"google.golang.org/grpc/status"
 	"google.golang.org/protobuf/proto"
 	"google.golang.org/protobuf/types/known/timestamppb"
 
@@ -45,6 +47,11 @@ func (m *Model) GetPublication(id string, opts ...resource.ReadOption) (*traits.
 }
 
 func (m *Model) UpdatePublication(id string, publication *traits.Publication, opts ...resource.WriteOption) (*traits.Publication, error) {
+	if id == "" {
+		// The empty id names no publication; with resource.WithCreateIfAbsent one would be created under it, which
+		// CreatePublication never does (it allocates an id instead) and which ListPublications cannot page past.
+		return nil, status.Error(codes.NotFound, "id not specified")
+	}
 	args := calcWriteArgs(opts...)
 	opts = append([]resource.WriteOption{m.withComputedProperties(args)}, opts...)
 	// The publication is stored under id and listed (and paged) by its Id field: a write must not leave the two
